@@ -4,6 +4,7 @@
 (*           and (WithReplace) Replace(n, k) of a nested group by a fresh one;     *)
 (*           valuation restricted to the fields MCFields, value tokens MCValues;   *)
 (*  "window" one state per (obstacle descriptor, begin, end); Widen moves end;     *)
+(*  "lights" one state per (light configuration, time_begin); Tick moves time;     *)
 (*  "total"  one state per (archetype, window) - generation only.                  *)
 (* The tree model is implementation-shaped in one respect: DEV_CachedSubParams     *)
 (* models a parameter group that remembers its nested groups from construction     *)
@@ -17,11 +18,13 @@ CONSTANTS Mode, MCFields, MCValues, MaxSets, MCSub, WMax, WithReplace, DEV_Cache
 VARIABLES val, hist,        \* tree: valuation, sequence of actions applied so far
           stale,            \* tree: slots whose group was replaced after the construction of the parent
           o, b, e,          \* window: descriptor, time_begin, time_end
+          lc, lt,           \* lights: light configuration, time_begin
           a, w              \* total: archetype, window name
-vars == <<val, hist, stale, o, b, e, a, w>>
+vars == <<val, hist, stale, o, b, e, lc, lt, a, w>>
 
 Val0    == [p \in Pairs(MCFields) |-> "default"]
 NoDesc  == [kind |-> "env", t0 |-> 0, n |-> 0]
+NoLight == [cyc |-> <<[d |-> 2, c |-> "green"], [d |-> 2, c |-> "red"]>>, off |-> 0, active |-> 1]
 (* actions are issued at the root and at every node of the subtree MCSub ("" = at every node of the tree,
    "reduced" = root, dynamic_obstacle and one deep node) *)
 ReducedNodes == {<<>>, <<"dynamic_obstacle">>, <<"dynamic_obstacle", "vehicle_shape">>}
@@ -41,19 +44,22 @@ ImplSet(vl, st, act) ==
 
 Init == /\ val = (IF Mode = "tree" THEN Val0 ELSE <<>>) /\ hist = <<>> /\ stale = {}
         /\ IF Mode = "window" THEN o \in Descriptors /\ b \in 0..WMax /\ e \in b..WMax ELSE o = NoDesc /\ b = 0 /\ e = 0
+        /\ IF Mode = "lights" THEN lc \in LightConfigs /\ lt = 0 ELSE lc = NoLight /\ lt = 0
         /\ IF Mode = "total" THEN a \in Archetypes /\ w \in Windows ELSE a = "empty" /\ w = "default"
 
 DoSet == /\ Mode = "tree" /\ Len(hist) < MaxSets
          /\ \E act \in Acts : val' = ImplSet(val, stale, act) /\ hist' = Append(hist, act)
-         /\ UNCHANGED <<stale, o, b, e, a, w>>
+         /\ UNCHANGED <<stale, o, b, e, lc, lt, a, w>>
 DoReplace == /\ Mode = "tree" /\ WithReplace /\ Len(hist) < MaxSets
              /\ \E act \in RepActs : /\ val' = ReplaceOp(val, act.n, act.k, act.inh)
                                        /\ hist' = Append(hist, act)
                                        /\ stale' = {s \in stale : ~IsPrefix(Append(act.n, act.k), s)} \cup {Append(act.n, act.k)}
-             /\ UNCHANGED <<o, b, e, a, w>>
+             /\ UNCHANGED <<o, b, e, lc, lt, a, w>>
 Widen == /\ Mode = "window" /\ e < WMax /\ e' = e + 1
-         /\ UNCHANGED <<val, hist, stale, o, b, a, w>>
-Next == DoSet \/ DoReplace \/ Widen
+         /\ UNCHANGED <<val, hist, stale, o, b, lc, lt, a, w>>
+Tick  == /\ Mode = "lights" /\ lt < TMax /\ lt' = lt + 1
+         /\ UNCHANGED <<val, hist, stale, o, b, e, lc, a, w>>
+Next == DoSet \/ DoReplace \/ Widen \/ Tick
 Spec == Init /\ [][Next]_vars
 
 (* ------------------------------ laws, part (1) ------------------------------ *)
@@ -112,6 +118,20 @@ InvLanelets     == Mode = "window" => \A ids \in SUBSET {101, 102, 999} :
                        /\ LaneletsExpected({101, 102}, 1, ids) \subseteq {101, 102}
                        /\ LaneletsExpected({101, 102}, 1, ids) = ids \ {999}
 
+(* ------------------------------ laws, part (2b) ----------------------------- *)
+InvLightTotal   == Mode = "lights" => LightShown(lc, lt) \in LightColors /\ ValidLight(lc)
+InvLightOff     == (Mode = "lights" /\ lc.active = 0) => LightShown(lc, lt) = "inactive"
+InvLightCycle   == (Mode = "lights" /\ lc.active = 1) =>
+                       /\ LightShown(lc, lt) \in {lc.cyc[i].c : i \in DOMAIN lc.cyc}
+                       /\ LightShown(lc, lt + TL!Total(lc.cyc)) = LightShown(lc, lt)                   \* periodic, also before the offset
+                       /\ lt >= lc.off /\ lt < lc.off + lc.cyc[1].d => LightShown(lc, lt) = lc.cyc[1].c  \* the cycle starts at the offset
+(* the time dimension 0..TMax hits every phase of every cycle (in particular the inactive ones) *)
+InvEveryPhaseHit == Mode = "lights" => \A i \in DOMAIN lc.cyc : \E t \in 0..TMax : TL!StateAt(lc.cyc, lc.off, t) = lc.cyc[i].c
+(* stepping time changes the colour only at phase boundaries: to the next element of the cycle *)
+PropLightStep   == [][(Mode = "lights" /\ lc.active = 1) =>
+                          LET i == TL!ElemAt(lc.cyc, lc.off, lt)  j == TL!ElemAt(lc.cyc, lc.off, lt') IN j = i \/ j = (i % Len(lc.cyc)) + 1]_vars
+InvPartsNoLight == Mode = "lights" => PartsMissing({101, 102}, <<>>) = {101, 102} \X LaneletParts   \* no light argument at all
+
 (* ------------------------------ generation ---------------------------------- *)
 (* tree: one case per node with all scalar field names of the table (Python runs a Set history per (node, field)) *)
 EmitTree  == (Mode = "tree" /\ hist = <<>>) =>
@@ -127,5 +147,6 @@ EmitSlots == (Mode = "tree" /\ hist = <<>>) =>
 EmitWin   == Mode = "window" => PrintT(<<"CASE", ToJson([part |-> "window", desc |-> o, b |-> b, e |-> e,
                                                           must |-> Cardinality(DrawnMust(o, b, e)),
                                                           band |-> Cardinality(DrawnMay(o, b, e) \ DrawnMust(o, b, e))])>>)
+EmitLights == Mode = "lights" => PrintT(<<"CASE", ToJson([part |-> "lights", light |-> lc, t |-> lt])>>)
 EmitTotal == Mode = "total"  => PrintT(<<"CASE", ToJson([part |-> "total", arch |-> a, win |-> w, b |-> WindowOf(w)[1], e |-> WindowOf(w)[2]])>>)
 =================================================================================
